@@ -4,7 +4,9 @@ CONSTANTS
   Warms <- W5
   Free = 2
   Slices <- TSlices
-  Ops <- AllOps
+  Sels <- XSels
+  Items <- NoItems
+  Ops <- ScriptOps
 INVARIANT Shape
 INVARIANT LenIsCalls
 INVARIANT KExact
@@ -14,4 +16,5 @@ INVARIANT IthRecord
 INVARIANT NoAlias
 PROPERTY ArgUnchanged
 PROPERTY ConcatOrder
+PROPERTY IndexShape
 INVARIANT Emit
